@@ -1018,7 +1018,21 @@ def _numeric_pow_callers(F, s, e):
     return (mg and zg), ("callers %s; Number::pow gate %s; eval_prefix zero-base gate %s" % ([c.split("::")[-1] for c in callers], mg, zg))
 
 
+def _operands_reset_to_one(F, s, e):
+    """conformance_err: every Number operand of its Mul/Div calls borrows a local whose value was reset to Numeric::one()."""
+    fn = F.find(CORE, "runtime::eval::conformance_err")
+    n = 0
+    for bb, t in fn.calls():
+        if "callee" in t and t["callee"]["path"].endswith(("core::ops::arith::Mul<&'b types::number::Number>>::mul", "core::ops::arith::Div<&'b types::number::Number>>::div")):
+            for a in t["args"]:
+                n += 1
+                if not value_reset_to_one(fn, a, bb):
+                    return False, "an operand of the unit arithmetic in conformance_err is not reset to value one (%s)" % ap_str(fn.apath(a))[:60]
+    return n >= 4, "all %d operands of conformance_err's unit arithmetic have value one" % n
+
+
 BACKING = {
+    "operands_reset_to_one": _operands_reset_to_one,
     "exponent_bound_gates": _exponent_bound_gates,
     "numeric_pow_callers": _numeric_pow_callers,
     "starts_with": _guarded_by_call("core::str::<impl str>::starts_with", True),
@@ -1035,3 +1049,101 @@ BACKING = {
     "only_called_from_to_string": _only_callers(["types::bigrat::BigRat::to_string", "types::bigrat::BigRat::to_scientific", "types::bigrat::BigRat::to_digits_impl"]),
     "only_called_from_conformance_err": _only_callers(["runtime::eval::conformance_err"]),
 }
+
+
+# =========================================================================================
+# T1 (restricted): loops over a never-ending token stream must leave on Eof
+# =========================================================================================
+def sccs(fn):
+    """Strongly connected components with a cycle (natural loops, coarsely) of the non-cleanup CFG."""
+    n = len(fn.blocks)
+    index = {}
+    low = {}
+    onstack = set()
+    stack = []
+    out = []
+    counter = [0]
+    import sys
+    sys.setrecursionlimit(10000)
+
+    def strong(v):
+        index[v] = low[v] = counter[0]
+        counter[0] += 1
+        stack.append(v)
+        onstack.add(v)
+        for _, w in fn.succs(v):
+            if w not in index:
+                strong(w)
+                low[v] = min(low[v], low[w])
+            elif w in onstack:
+                low[v] = min(low[v], index[w])
+        if low[v] == index[v]:
+            comp = set()
+            while True:
+                w = stack.pop()
+                onstack.discard(w)
+                comp.add(w)
+                if w == v:
+                    break
+            if len(comp) > 1 or any(w == v for _, w in fn.succs(v)):
+                out.append(comp)
+    for v in fn.reachable(0):
+        if v not in index:
+            strong(v)
+    return out
+
+
+def eof_exits(chk, F, reach, rule="loop-leaves-on-eof"):
+    """Every loop that pulls tokens from a lexer that never returns None (it yields Eof forever) has a way out on the Eof token."""
+    D = Discharger(F, cg.get(F), reach)
+    lexers = {"parsing::text_query": "<parsing::text_query::TokenIterator<'a> as core::iter::traits::iterator::Iterator>::next",
+              "loader::gnu_units": "<loader::gnu_units::TokenIterator<'a> as core::iter::traits::iterator::Iterator>::next"}
+    always = {}
+    for mod, p in lexers.items():
+        f = [x for x in F.by_crate[CORE] if x.path == p]
+        always[mod] = bool(f) and f[0].id in D.always_some
+        chk.decide(always[mod], rule, "rink_core::" + p, "lexer-never-ends", f[0].where() if f else "",
+                   "the lexer returns Some(Token::Eof) forever at the end of input (so parser unwraps are safe, and parser loops must leave on Eof)",
+                   "the lexer can return None: the parsers' next().unwrap()/peek().unwrap() sites would panic at end of input")
+    n = 0
+    for fid in reach:
+        fn = F.fns[fid]
+        if fn.crate != CORE or not (fn.path.startswith("parsing::text_query::") or fn.path.startswith("loader::gnu_units::")):
+            continue
+        comps = sccs(fn)
+        for comp in comps:
+            # token pulls inside the loop
+            pulls = []
+            for b in comp:
+                t = fn.blocks[b]["term"]
+                if t["k"] == "call" and "callee" in t:
+                    p = t["callee"]["path"]
+                    g = " ".join(t["callee"].get("gargs", []))
+                    if p.endswith(("Peekable<I> as core::iter::traits::iterator::Iterator>::next", "Peekable::<I>::peek", "TokenIterator<'a> as core::iter::traits::iterator::Iterator>::next", "Iterator>::next")) and \
+                            ("text_query::TokenIterator" in g or "gnu_units::TokenIterator" in g):
+                        pulls.append(b)
+            if not pulls:
+                continue
+            n += 1
+            # switches on a Token discriminant inside the loop: where does Eof go?
+            ok = False
+            tested = False
+            for b in comp:
+                info = fn.switch_info(b)
+                if info and info["kind"] == "discr" and info["enum"].endswith("::Token") and "Eof" in info["variants"].values():
+                    tested = True
+                    ve = fn.variant_edges(b)
+                    tgt = ve.get("Eof")
+                    if tgt is None:
+                        continue
+                    consuming = {x for x in pulls if fn.blocks[x]["term"]["callee"]["path"].endswith("Iterator>::next")}
+                    seen = fn.reachable(tgt, cut_blocks=consuming)
+                    if any(x not in comp for x in seen):
+                        ok = True
+            hdr = min(comp)
+            chk.decide(ok, rule, "%s::%s" % (fn.crate, fn.path), "loop@bb%s" % ("%d-blocks" % len(comp)), fn.where(hdr),
+                       "the loop leaves (break/return) when the token is Eof, before pulling another token",
+                       "a loop pulls tokens from a lexer that yields Eof forever but %s: at end of input it never terminates" % (
+                           "has no exit on the Eof token" if tested else "never inspects the token for Eof"))
+    if n < 6:
+        chk.anchor_lost(rule, "rink_core parsers", "only %d token-pulling loops found in the reachable parser functions (expected >= 6: parse_function, parse_suffix, parse_juxt, parse_div, parse_add, parse_unitlist)" % n)
